@@ -477,6 +477,8 @@ func runC05(c *Ctx, pr *PropertyRun) {
 		pk.ExpectControl("propkey")
 	}
 
+	c05ReadDir(c, pr, "C05")
+
 	// requests
 	req := NewRule("C05", "C05.requests", "every request URL and Destination header is ResolveHref(name).String(); ResolveHref's table (WHO-MAY-CALL + E2)")
 	pr.Rules = append(pr.Rules, req)
